@@ -27,7 +27,15 @@
        abstracted to record [dset];
      the methods ContentSequence inherits from collections.abc.MutableSequence /
        Sequence, which run on top of __getitem__/__setitem__/__delitem__/index:
-       pop, remove, reverse, clear, count.
+       pop, remove, reverse, clear, count;
+     FAMILIES of sequences (end of the file): a ContentSequence built FROM another one -
+       ContentSequence(seq, is_root, is_sr) (also what ContentItem.__setattr__ does on
+       `item.ContentSequence = seq`), copy.deepcopy(seq), seq.find(name), seq.get_nodes() -
+       is a NEW sequence with its own list and its own name index (built by __init__ from
+       the items); later operations on either sequence do not touch the other.
+   The concept name [iname] is the equality class of the name under CodedConcept/Code
+   __eq__ (scheme designator, code value, scheme VERSION; the meaning is ignored); a lookup
+   key of either type (CodedConcept or pydicom Code) denotes the same class.
    NO proofs in this file. *)
 From Coq Require Import String ZArith List Bool.
 From HD Require Import Base.Val Base.PySlice.
@@ -533,3 +541,68 @@ Definition run_slice (n : Z) (start stop step : option Z) : val :=
   else let '(f, l, _) := slice_indices start stop stp n in
        VL [vz_list (map ipay (slice_get f l stp xs)); vz_list (map ipay (slice_del f l stp xs));
            VZ (range_len f l stp)].
+
+(* ---- families of sequences: sequences constructed from other sequences ------------------------- *)
+(* how a new sequence is obtained from an existing one *)
+Inductive derive :=
+| DCtor (root sr : bool)   (* ContentSequence(seq, is_root=root, is_sr=sr); item.ContentSequence = seq is DCtor false true *)
+| DCopy                    (* copy.deepcopy(seq): same items, same flags *)
+| DFind (n : Z)            (* seq.find(name) *)
+| DNodes.                  (* seq.get_nodes() *)
+
+(* every one of them runs __init__ on a list of items: the new sequence gets a list and an index of its own *)
+Definition derive_from (s : st) (d : derive) : res st :=
+  match d with
+  | DCtor root sr => init (items s) root sr
+  | DCopy => init (items s) (is_root s) (is_sr s)
+  | DFind n => init (lut s n) (is_root s) (is_sr s)
+  | DNodes => init (filter inode (items s)) (is_root s) (is_sr s)
+  end.
+
+Inductive mop :=
+| MOn (i : Z) (o : xop)          (* operation o on the i-th sequence of the family *)
+| MDerive (src : Z) (d : derive). (* a new sequence (appended to the family) from the src-th one *)
+
+Definition ENOSEQ : string := "NoSequence".
+
+Definition get_seq (ss : list st) (i : Z) : option st :=
+  if i <? 0 then None else nth_error ss (Z.to_nat i).
+
+Fixpoint set_nth (ss : list st) (i : nat) (s : st) : list st :=
+  match ss, i with
+  | [], _ => []
+  | _ :: r, O => s :: r
+  | x :: r, S i' => x :: set_nth r i' s
+  end.
+
+(* an operation on one member changes that member only; a derivation changes no existing member *)
+Definition mstep (ss : list st) (o : mop) : list st * res (option item) :=
+  match o with
+  | MOn i o => match get_seq ss i with
+               | None => (ss, Err ENOSEQ)
+               | Some s => let '(s', r) := xstep s o in (set_nth ss (Z.to_nat i) s', r)
+               end
+  | MDerive src d => match get_seq ss src with
+                     | None => (ss, Err ENOSEQ)
+                     | Some s => match derive_from s d with
+                                 | Ok s' => (ss ++ [s'], Ok None)
+                                 | Err e => (ss, Err e)
+                                 end
+                     end
+  end.
+
+Definition mrun (ss : list st) (ops : list mop) : list st := fold_left (fun ss o => fst (mstep ss o)) ops ss.
+
+Fixpoint run_mops (names : list Z) (qs : list item) (ss : list st) (ops : list mop) : list val :=
+  match ops with
+  | [] => []
+  | o :: os => let '(ss', r) := mstep ss o in
+               VL [vxres r; VL (map (observe names qs) ss')] :: run_mops names qs ss' os
+  end.
+
+(* a history over a family of sequences; after every step ALL members are observed *)
+Definition run_multi (root sr : bool) (c : ctor) (names : list Z) (qs : list item) (ops : list mop) : val :=
+  match construct c root sr with
+  | Err e => VErr e
+  | Ok s => VL (VL [observe names qs s] :: run_mops names qs [s] ops)
+  end.
